@@ -544,7 +544,8 @@ def run_scripted(case: dict) -> dict:
                         case's own limits are then assigned to the public, mutable solver.configuration before solving —
                         the limits in force when the solve is called are the case's
       then              a further case (same n_ops / n_qubits) solved afterwards with the SAME solver object, its limits
-                        assigned to solver.configuration in between
+                        assigned to solver.configuration in between; it may carry a "then" of its own (a chain, e.g.
+                        solve ok -> solve in which an operator raises mid-run -> solve again)
     Aux evaluator `a` maps a measured bitstring b to 1000*a + int(b); the main evaluator maps b to int(b) (unused by
     scripted operators).  The initial state `init` is X on the set bits of init, so the best individual `i` behind it
     is measured as i xor init with certainty.
@@ -564,15 +565,16 @@ def run_scripted(case: dict) -> dict:
         solver = build_scripted_solver(case["n_ops"], tape, l0.get("max_generations"), l0.get("max_evals"), crit0, pop0=case.get("pop0", 0))
         _assign_limits(solver, case, crit)
     out = _solve_scripted(solver, tape, rec, crit, case)
-    nxt = case.get("then")
-    if nxt is not None:
+    cur_out, nxt = out, case.get("then")
+    while nxt is not None:     # a chain of further solves with the same solver object ("then" may itself have a "then")
         rec2 = Recorder()
         tape2 = ScriptTape(nxt["apps"], nxt["estimates"], n, rec2, np_values=bool(nxt.get("np_values")))
         crit2 = make_criterion(nxt, rec2)
         for op in solver.configuration.evolutionary_operators:
             op.tape = tape2
         _assign_limits(solver, nxt, crit2)
-        out["then"] = _solve_scripted(solver, tape2, rec2, crit2, nxt)
+        cur_out["then"] = _solve_scripted(solver, tape2, rec2, crit2, nxt)
+        cur_out, nxt = cur_out["then"], nxt.get("then")
     return out
 
 
@@ -639,17 +641,52 @@ def apportion(probabilities, shots: int) -> list:
     return [int(x) for x in base]
 
 
+class BackendFailure(RuntimeError):
+    """What the fake primitives raise when their FailSwitch fires (a backend that goes away mid-run)."""
+
+
+class FailSwitch:
+    """Shared by the fake primitives of one solver: arm(n) makes the n-th pub served from now on raise BackendFailure
+    (n = 1: the next one); disarm() switches the failure off.  Thread-safe."""
+
+    def __init__(self):
+        self.remaining = None
+        self._lock = threading.Lock()
+
+    def arm(self, n: int):
+        with self._lock:
+            self.remaining = int(n)
+
+    def disarm(self):
+        with self._lock:
+            self.remaining = None
+
+    def tick(self):
+        with self._lock:
+            if self.remaining is None:
+                return
+            self.remaining -= 1
+            fire = self.remaining <= 0
+            if fire:
+                self.remaining = None
+        if fire:
+            raise BackendFailure("the backend stopped answering")
+
+
 class ExactSampler(StatevectorSampler):
     """SamplerV2 whose counts are the exact outcome probabilities apportioned over the shots by largest remainder:
     no randomness, the same circuit and parameter values always give the same counts, in any batch position and from any
     thread.  Everything else (pub coercion, classical-register layout, result containers, PrimitiveJob) is qiskit's
     StatevectorSampler."""
 
-    def __init__(self, *, default_shots: int = 1024):
+    def __init__(self, *, default_shots: int = 1024, switch: Optional[FailSwitch] = None):
         super().__init__(default_shots=default_shots, seed=0)
         self.calls = 0      # number of pubs served (diagnostics only)
+        self.switch = switch
 
     def _run_pub(self, pub):
+        if self.switch is not None:
+            self.switch.tick()
         circuit, qargs, meas_info = _preprocess_circuit(pub.circuit)
         bound_circuits = pub.parameter_values.bind_all(circuit)
         arrays = {item.creg_name: np.zeros(bound_circuits.shape + (pub.shots, item.num_bytes), dtype=np.uint8) for item in meas_info}
@@ -673,9 +710,20 @@ class ExactSampler(StatevectorSampler):
         return SamplerPubResult(DataBin(**meas, shape=pub.shape), metadata={"shots": pub.shots, "circuit_metadata": pub.circuit.metadata})
 
 
-def exact_estimator() -> StatevectorEstimator:
-    """Exact expectation values (use with ConfiguredEstimatorV2(precision=0.0): qiskit adds noise only for precision != 0)."""
-    return StatevectorEstimator(default_precision=0.0, seed=0)
+class _SwitchedEstimator(StatevectorEstimator):
+    def __init__(self, switch: FailSwitch):
+        super().__init__(default_precision=0.0, seed=0)
+        self.switch = switch
+
+    def _run_pub(self, pub):
+        self.switch.tick()
+        return super()._run_pub(pub)
+
+
+def exact_estimator(switch: Optional[FailSwitch] = None) -> StatevectorEstimator:
+    """Exact expectation values (use with ConfiguredEstimatorV2(precision=0.0): qiskit adds noise only for precision != 0).
+    With a FailSwitch the estimator raises BackendFailure when the switch fires."""
+    return StatevectorEstimator(default_precision=0.0, seed=0) if switch is None else _SwitchedEstimator(switch)
 
 
 class CoordinateSearch(Optimizer):
@@ -719,12 +767,16 @@ class CoordinateSearch(Optimizer):
 
 # =============================================================================================== EVQE helpers
 def random_evqe_setup(rng, quick: bool = True, family: Optional[str] = None, plain_fitness: Optional[bool] = None,
-                      rich_assembly: bool = False) -> dict:
+                      rich_assembly: bool = False, big_population: Optional[int] = None, failure: bool = False) -> dict:
     """A small random EVQE configuration as a JSON-able dict (see build_evqe / build_package_solver);
     family: "evqe" | "package" | None (random).
     plain_fitness: both selection penalties 0 and no roulette offset (tournament selection, or an objective shifted to be
     strictly positive), at least two generations and a speciation threshold that merges species — the configuration in
     which the selection fitness of an individual is its expectation value times its species size and nothing else.
+    big_population: that many individuals (e.g. 33, 40, 65: beyond typical task / batch limits), kept cheap: package
+    family (speciation + selection only), 2 qubits, exact estimator, no batching wrapper, 1-2 generations.
+    failure: setup["more"] = [a problem during which the backend fails after some evaluations ({"fail_at": k}), then a
+    normal problem] — the solve after a failed solve of the same solver object.
     rich_assembly: an initial state that does not commute with the ansatz ("h0" / "ry"), aux operators requested (list or
     dict), alpha = 1, and a limit that lets at least one generation happen — the configurations on which the
     result-assembly clause of C05 (eigenstate / aux values of the best individual behind the initial state) is decided."""
@@ -738,7 +790,7 @@ def random_evqe_setup(rng, quick: bool = True, family: Optional[str] = None, pla
         evaluator=evaluator,
         population_size=pop,
         workers=rng.choice([1, 1, 2, 4]),
-        mutex=rng.random() < 0.25,
+        mutex=rng.random() < 0.12,   # the batching wrapper waits 0.1 s per batch: few of them
         tournament=tournament,
         tournament_size=rng.randint(1, pop) if tournament else None,
         seed=rng.randint(0, 10**6),
@@ -761,6 +813,7 @@ def random_evqe_setup(rng, quick: bool = True, family: Optional[str] = None, pla
     # family "package": base configuration around the package's own speciation/selection with a fixed seeded initial
     # population.  `more`: further problems solved afterwards with the SAME solver object (other operator, other initial
     # state, other aux form): the result of every solve has to be consistent with its own history.
+    setup["init_form"] = rng.choice(INIT_FORMS)
     if rich_assembly:
         setup["init"] = rng.choice(["h0", "ry"])
         setup["aux"] = rng.choice(["list", "dict"])
@@ -790,9 +843,25 @@ def random_evqe_setup(rng, quick: bool = True, family: Optional[str] = None, pla
         setup["max_generations"] = rng.randint(1, 3)   # selection alone may report too few evaluations to hit a budget
     if setup["family"] == "package" or rng.random() < 0.4:
         setup["more"] = [dict(coeffs=[rng.choice([-2.0, -1.0, 0.5, 1.0, 1.5]) for _ in range(4)], init=rng.choice([None, "x0", "h0", "ry"]),
-                              aux=rng.choice([None, "list", "dict"]))]
+                              init_form=rng.choice(INIT_FORMS), aux=rng.choice([None, "list", "dict"]))]
     else:
         setup["more"] = []
+    if big_population:
+        setup.update(family="package", population_size=int(big_population), n_qubits=2, evaluator="estimator", mutex=False,
+                     max_generations=rng.randint(1, 2), max_evals=None, criterion=None, alpha=1, more=[],
+                     tournament_size=(rng.randint(1, 5) if setup["tournament"] else None))
+    if failure:
+        if setup["max_generations"] is None:
+            setup["max_generations"] = rng.randint(2, 3)
+        if setup["max_evals"] is not None:
+            setup["max_evals"] = max(setup["max_evals"], 90)
+        if setup["criterion"] is not None:
+            setup["criterion"] = [False, False] + setup["criterion"]
+        setup["mutex"] = False
+        pop_n = setup["population_size"]
+        setup["more"] = [dict(fail_at=rng.randint(pop_n + 1, 3 * pop_n + 2)),
+                         dict(coeffs=[rng.choice([-2.0, -1.0, 0.5, 1.0, 1.5]) for _ in range(4)], init=rng.choice([None, "x0", "h0"]),
+                              init_form=rng.choice(INIT_FORMS), aux=rng.choice([None, "list"]))]
     return setup
 
 
@@ -806,10 +875,25 @@ def _hamiltonian(n: int, coeffs):
     return SparsePauliOp.from_list(terms)
 
 
-def _init_circuit(n: int, kind):
+INIT_FORMS = ["plain", "creg1", "cregn", "named"]
+
+
+def _init_circuit(n: int, kind, form: str = "plain"):
+    """Initial-state circuit `kind` (None / "x0" / "h0" / "ry") in one of the legal FORMS a user may hand in: a plain
+    QuantumCircuit(n); one that owns a 1-bit classical register "flag"; QuantumCircuit(n, n); one over a named quantum
+    register.  The state it prepares does not depend on the form."""
     if kind is None:
         return None
-    init = QuantumCircuit(n)
+    from qiskit.circuit import ClassicalRegister, QuantumRegister
+
+    if form == "creg1":
+        init = QuantumCircuit(QuantumRegister(n, "q"), ClassicalRegister(1, "flag"))
+    elif form == "cregn":
+        init = QuantumCircuit(n, n)
+    elif form == "named":
+        init = QuantumCircuit(QuantumRegister(n, "data"))
+    else:
+        init = QuantumCircuit(n)
     if kind == "x0":
         init.x(0)
     elif kind == "ry":   # generic rotations: commutes with nothing the ansatz does
@@ -828,10 +912,10 @@ def evqe_problem(solver, setup: dict, problem: Optional[dict] = None):
     """The problem (operator, aux operators, initial state) of `setup`, optionally overridden by `problem`
     (keys coeffs / init / aux), as a call on `solver`.  Returns (call, parts): call() runs the public compute_* method
     matching setup["evaluator"]; parts = dict(operator, aux, init)."""
-    p = dict(coeffs=setup["coeffs"], init=setup["init"], aux=setup["aux"])
+    p = dict(coeffs=setup["coeffs"], init=setup["init"], aux=setup["aux"], init_form=setup.get("init_form", "plain"))
     p.update(problem or {})
     n, c = setup["n_qubits"], p["coeffs"]
-    init = _init_circuit(n, p["init"])
+    init = _init_circuit(n, p["init"], p.get("init_form", "plain"))
     positive = bool(setup.get("positive"))   # shift the objective above zero: every expectation value is > 0
     if setup["evaluator"] == "bitstring":
         w = [c[i % len(c)] for i in range(n)]
@@ -860,8 +944,9 @@ def build_evqe(setup: dict, criterion=None):
     Returns (solver, call, parts) — call/parts as evqe_problem(solver, setup)."""
     from queasars.minimum_eigensolvers.evqe.evqe import EVQEMinimumEigensolver, EVQEMinimumEigensolverConfiguration
 
-    sampler = ExactSampler()
-    est = ConfiguredEstimatorV2(estimator=exact_estimator(), precision=0.0) if setup["evaluator"] == "estimator" else None
+    switch = FailSwitch()
+    sampler = ExactSampler(switch=switch)
+    est = ConfiguredEstimatorV2(estimator=exact_estimator(switch), precision=0.0) if setup["evaluator"] == "estimator" else None
     cfg = EVQEMinimumEigensolverConfiguration(
         configured_estimator=est,
         configured_sampler=ConfiguredSamplerV2(sampler=sampler, shots=setup["shots"]),
@@ -888,6 +973,7 @@ def build_evqe(setup: dict, criterion=None):
         mutually_exclusive_primitives=setup["mutex"],
     )
     solver = EVQEMinimumEigensolver(cfg)
+    solver.verif_switch = switch      # harness attribute: arm it to make the backend fail mid-run
     call, parts = evqe_problem(solver, setup)
     return solver, call, parts
 
@@ -910,13 +996,14 @@ def build_package_solver(setup: dict, criterion=None):
     ]
     if setup["p_topo"] > 0:
         ops.append(EVQETopologicalSearch(mutation_probability=setup["p_topo"] / 2, random_seed=setup["seed"] + 3))
-    est = ConfiguredEstimatorV2(estimator=exact_estimator(), precision=0.0) if setup["evaluator"] == "estimator" else None
+    switch = FailSwitch()
+    est = ConfiguredEstimatorV2(estimator=exact_estimator(switch), precision=0.0) if setup["evaluator"] == "estimator" else None
     cfg = EvolvingAnsatzMinimumEigensolverConfiguration(
         population_initializer=lambda n_qubits: EVQEPopulation.random_population(
             n_qubits=n_qubits, n_layers=setup["n_initial_layers"], n_individuals=setup["population_size"],
             randomize_parameter_values=True, random_seed=setup["seed"]),
         evolutionary_operators=ops,
-        configured_sampler=ConfiguredSamplerV2(sampler=ExactSampler(), shots=setup["shots"]),
+        configured_sampler=ConfiguredSamplerV2(sampler=ExactSampler(switch=switch), shots=setup["shots"]),
         configured_estimator=est,
         pass_manager=_pass_manager(),
         max_generations=setup["max_generations"],
@@ -927,5 +1014,6 @@ def build_package_solver(setup: dict, criterion=None):
         mutually_exclusive_primitives=setup["mutex"],
     )
     solver = EvolvingAnsatzMinimumEigensolver(cfg)
+    solver.verif_switch = switch
     call, parts = evqe_problem(solver, setup)
     return solver, call, parts
